@@ -95,6 +95,16 @@ impl Str {
     pub fn empty() -> (r: &'static Str)
         ensures r@ == Seq::<char>::empty(),
     { unimplemented!() }
+    /// `String::new()`
+    #[verifier::external_body]
+    pub fn new() -> (r: Str)
+        ensures r@ == Seq::<char>::empty(),
+    { unimplemented!() }
+    /// `String::clear`
+    #[verifier::external_body]
+    pub fn clear(&mut self)
+        ensures final(self)@ == Seq::<char>::empty(),
+    { unimplemented!() }
     /// `str::trim_end` (ASSUMED std contract: trim_end_spec)
     #[verifier::external_body]
     pub fn trim_end<'a>(&'a self) -> (r: &'a Str)
@@ -312,7 +322,7 @@ pub open spec fn bed_rest(line: Seq<char>) -> Seq<char> {
         [[L: bed/malformed_line_is_refused_naming_the_first_bad_field]]
         r matches Some(Err(e)) ==> e is InvalidInput && Some(e->InvalidInput_0.kind()) == bed_bad(s@),
 //@open
-    proof { lemma_splitn_len(trim_end_spec(s@), 4, '\t'); }
+    proof { lemma_splitn_len(trim_end_spec(s@), 3, '\t'); lemma_splitn_len(trim_end_spec(s@), 4, '\t'); lemma_splitn_len(trim_end_spec(s@), 5, '\t'); }
     let ghost c = bed_cols(s@);
 //@at /parse_bed_fields\(&mut split, s\)/ before
     proof {
@@ -368,13 +378,432 @@ pub open spec fn bed_rest(line: Seq<char>) -> Seq<char> {
         [[L: bg/malformed_line_is_refused_naming_the_first_bad_field]]
         r matches Some(Err(e)) ==> e is InvalidInput && Some(e->InvalidInput_0.kind()) == bg_bad(s@),
 //@open
-    proof { lemma_splitn_len(trim_end_spec(s@), 5, '\t'); }
+    proof { lemma_splitn_len(trim_end_spec(s@), 3, '\t'); lemma_splitn_len(trim_end_spec(s@), 4, '\t'); lemma_splitn_len(trim_end_spec(s@), 5, '\t'); }
     let ghost c = bg_cols(s@);
 //@at /parse_bedgraph_fields\(&mut split, s\)/ before
     proof {
         assert(seq![Seq::<char>::empty()] + c.drop_first() =~= c.update(0, Seq::<char>::empty()));
     }
 //@end
+
+// ================= (2) BedFileStream::next =================
+/// `B: BufRead` under the line reader (`BufReader<File>`, `BufReader<Stdin>`, ...).  Model: the outcomes of the
+/// `read_line` calls still to come, `lines()`: `Ok(text)` = one line of the file INCLUDING its terminator (so it
+/// is never empty: the last line may lack the '\n' but has at least one character), `Err(e)` = that read fails.
+#[verifier::external_body]
+pub struct VBufRead { _p: u8 }
+impl VBufRead {
+    pub uninterp spec fn lines(&self) -> Seq<Result<Seq<char>, IoErr>>;
+    /// `BufRead::read_line(&mut String)` (ASSUMED std contract): at end of file `Ok(0)` and nothing changes;
+    /// otherwise the next line is APPENDED to `buf` and its (positive) byte count returned, or the read fails
+    /// (nothing is promised about `buf` then).
+    #[verifier::external_body]
+    pub fn read_line(&mut self, buf: &mut Str) -> (r: Result<usize, IoErr>)
+        ensures
+            old(self).lines().len() == 0 ==> r == Ok::<usize, IoErr>(0) && final(self).lines() == old(self).lines() && final(buf)@ == old(buf)@,
+            old(self).lines().len() > 0 ==> final(self).lines() == old(self).lines().drop_first(),
+            old(self).lines().len() > 0 ==> (old(self).lines()[0] matches Ok(t) ==> r is Ok && r->Ok_0 > 0 && final(buf)@ == old(buf)@ + t),
+            old(self).lines().len() > 0 ==> (old(self).lines()[0] matches Err(e) ==> r == Err::<usize, IoErr>(e)),
+    { unimplemented!() }
+}
+/// `BufReader::new(file)`: buffering is transparent
+pub fn buf_reader_new(file: VBufRead) -> (r: VBufRead)
+    ensures r == file,
+{ file }
+
+// `StreamingLineReader<B>` (utils/file/streaming_linereader.rs): extracted and VERIFIED (not a shim)
+//@extract struct bigtools/src/utils/file/streaming_linereader.rs StreamingLineReader
+//@rule R8
+//@sub /#\[derive\(Debug\)\]\n/ => "" min=0
+//@sub /StreamingLineReader<B>/ => StreamingLineReader min=1
+//@sub /current_line: String,/ => pub current_line: Str, min=1
+//@sub /buf_read: B,/ => pub buf_read: VBufRead, min=1
+//@end
+impl StreamingLineReader {
+    /// the lines not read yet
+    pub open spec fn lines(&self) -> Seq<Result<Seq<char>, IoErr>> { self.buf_read.lines() }
+//@extract method bigtools/src/utils/file/streaming_linereader.rs new "impl<B: BufRead> StreamingLineReader<B>"
+//@sub /\(bf: B\) -> StreamingLineReader<B>/ => (bf: VBufRead) -> StreamingLineReader min=1
+//@sub /String::new\(\)/ => Str::new() min=0
+//@ret r
+//@sig
+    ensures
+        [[L: reader_new/starts_at_the_first_line]]
+        r.lines() == bf.lines(),
+//@end
+//@extract method bigtools/src/utils/file/streaming_linereader.rs read "impl<B: BufRead> StreamingLineReader<B>"
+//@sub /Option<io::Result<&'_ str>>/ => Option<Result<&'_ Str, IoErr>> min=1
+//@ret r
+//@sig
+    ensures
+        [[L: reader/none_iff_end_of_file]]
+        r is None <==> old(self).lines().len() == 0,
+        [[L: reader/exactly_one_line_consumed]]
+        old(self).lines().len() > 0 ==> final(self).lines() == old(self).lines().drop_first(),
+        old(self).lines().len() == 0 ==> final(self).lines() == old(self).lines(),
+        [[L: reader/line_is_that_line_alone_without_trailing_whitespace]]
+        old(self).lines().len() > 0 ==> (old(self).lines()[0] matches Ok(t) ==>
+            r is Some && r->Some_0 is Ok && r->Some_0->Ok_0@ == trim_end_spec(t)),
+        [[L: reader/io_error_is_passed_on]]
+        old(self).lines().len() > 0 ==> (old(self).lines()[0] matches Err(e) ==>
+            r == Some(Err::<&Str, IoErr>(e))),
+//@at /match self\.buf_read\.read_line\(/ before
+        assert(self.current_line@ =~= Seq::<char>::empty()); [[L: reader/buffer_is_empty_before_the_read]]
+        proof { assert forall|t: Seq<char>| (#[trigger] (Seq::<char>::empty() + t)) == t by { assert(Seq::<char>::empty() + t =~= t); } }
+//@end
+}
+
+/// what an item of the stream says, for comparison with the specification: texts by content
+pub enum ItemView<V> {
+    Item(Seq<char>, V),
+    Refused(Seq<char>),
+    Io(IoErr),
+}
+/// a BED entry by content
+pub struct EntryView { pub start: u32, pub end: u32, pub rest: Seq<char> }
+pub open spec fn entry_view(e: BedEntry) -> EntryView { EntryView { start: e.start, end: e.end, rest: e.rest@ } }
+pub open spec fn err_view<V>(e: BedValueError) -> ItemView<V> {
+    match e { BedValueError::InvalidInput(m) => ItemView::Refused(m.kind()), BedValueError::IoError(x) => ItemView::Io(x) }
+}
+pub open spec fn bed_item_view(r: Result<(&Str, BedEntry), BedValueError>) -> ItemView<EntryView> {
+    match r { Ok(v) => ItemView::Item(v.0@, entry_view(v.1)), Err(e) => err_view(e) }
+}
+pub open spec fn bg_item_view(r: Result<(&Str, Value), BedValueError>) -> ItemView<Value> {
+    match r { Ok(v) => ItemView::Item(v.0@, v.1), Err(e) => err_view(e) }
+}
+/// THE ITEM A BED LINE STANDS FOR (C01/C02/C13): the entry with the columns of that line, or the refusal
+pub open spec fn bed_line_item(line: Seq<char>) -> ItemView<EntryView> {
+    match bed_bad(line) {
+        Some(k) => ItemView::Refused(k),
+        None => ItemView::Item(bed_cols(line)[0],
+            EntryView { start: u32_of(bed_cols(line)[1])->Some_0, end: u32_of(bed_cols(line)[2])->Some_0, rest: bed_rest(line) }),
+    }
+}
+pub open spec fn bg_line_item(line: Seq<char>) -> ItemView<Value> {
+    match bg_bad(line) {
+        Some(k) => ItemView::Refused(k),
+        None => ItemView::Item(bg_cols(line)[0],
+            Value { start: u32_of(bg_cols(line)[1])->Some_0, end: u32_of(bg_cols(line)[2])->Some_0, value: f32_of(bg_cols(line)[3])->Some_0 }),
+    }
+}
+/// ... and the item a read outcome stands for: an I/O error is passed on
+pub open spec fn bed_read_item(l: Result<Seq<char>, IoErr>) -> ItemView<EntryView> {
+    match l { Ok(t) => bed_line_item(t), Err(e) => ItemView::Io(e) }
+}
+pub open spec fn bg_read_item(l: Result<Seq<char>, IoErr>) -> ItemView<Value> {
+    match l { Ok(t) => bg_line_item(t), Err(e) => ItemView::Io(e) }
+}
+/// trimming before parsing changes nothing (the reader trims, `next` trims, the parse functions trim)
+proof fn lemma_items_ignore_trailing_whitespace(t: Seq<char>)
+    ensures
+        bed_line_item(trim_end_spec(t)) == bed_line_item(t), bg_line_item(trim_end_spec(t)) == bg_line_item(t),
+        bed_line_item(trim_end_spec(trim_end_spec(t))) == bed_line_item(t), bg_line_item(trim_end_spec(trim_end_spec(t))) == bg_line_item(t),
+{
+    lemma_trim_idempotent(t);
+    lemma_trim_idempotent(trim_end_spec(t));
+}
+
+// The struct is generic in the value type V and carries the parse function as a fn-pointer field
+// `parse: Parser<V>`.  It has exactly two constructors: `from_bed_file` (`parse: parse_bed`, V = BedEntry) and
+// `from_bedgraph_file` (`parse: parse_bedgraph`, V = Value).  Both instantiations are verified separately, the
+// fn-pointer call `(self.parse)(line)` replaced by the call of the (verified) parse function of that
+// instantiation; the field itself becomes a unit marker.
+pub struct ParserBed;
+pub struct ParserBedGraph;
+/// `parse: parse_bed` / `parse: parse_bedgraph` in the constructors (fn item -> fn pointer): the marker of that
+/// function.  (A constructor that wires the other function does not type-check here, as in the repository.)
+pub fn fnptr_parse_bed() -> ParserBed { ParserBed }
+pub fn fnptr_parse_bedgraph() -> ParserBedGraph { ParserBedGraph }
+//@extract struct bigtools/src/bed/bedparser.rs BedFileStream
+//@rule R8
+//@sub /BedFileStream<V, B>/ => BedFileStreamBed min=1
+//@sub /StreamingLineReader<B>/ => StreamingLineReader min=1
+//@sub /Parser<V>/ => ParserBed min=1
+//@end
+//@extract struct bigtools/src/bed/bedparser.rs BedFileStream
+//@rule R8
+//@sub /BedFileStream<V, B>/ => BedFileStreamBedGraph min=1
+//@sub /StreamingLineReader<B>/ => StreamingLineReader min=1
+//@sub /Parser<V>/ => ParserBedGraph min=1
+//@end
+
+impl BedFileStreamBed {
+//@extract method bigtools/src/bed/bedparser.rs from_bed_file "BedFileStream<BedEntry, BufReader<R>>"
+//@sub /\(file: R\) -> BedFileStream<BedEntry, BufReader<R>>/ => (file: VBufRead) -> BedFileStreamBed min=1
+//@sub /BedFileStream \{/ => BedFileStreamBed { min=1
+//@sub /BufReader::new\(/ => buf_reader_new( min=0
+//@sub /parse: (\w+),/ => parse: fnptr_\1(), min=1
+//@ret r
+//@sig
+    ensures
+        [[L: from_bed_file/stream_starts_at_the_first_line_of_the_file]]
+        r.bed.lines() == file.lines(),
+//@end
+//@extract method bigtools/src/bed/bedparser.rs next "StreamingBedValues for BedFileStream"
+//@sub /fn next\(&mut self\) -> Option<Result<\(&str, Self::Value\), BedValueError>>/ => fn next(&mut self) -> Option<Result<(&Str, BedEntry), BedValueError>> min=1
+//@sub /\(self\.parse\)\(/ => parse_bed( min=0
+//@ret r
+//@sig
+    ensures
+        [[L: file_bed/none_iff_file_exhausted]]
+        r is None <==> old(self).bed.lines().len() == 0,
+        [[L: file_bed/exactly_one_line_consumed]]
+        old(self).bed.lines().len() > 0 ==> final(self).bed.lines() == old(self).bed.lines().drop_first(),
+        old(self).bed.lines().len() == 0 ==> final(self).bed.lines() == old(self).bed.lines(),
+        [[L: file_bed/item_is_the_parse_of_that_line_io_error_passed_on]]
+        r matches Some(it) ==> bed_item_view(it) == bed_read_item(old(self).bed.lines()[0]),
+    decreases
+        [[L: file_bed/termination]]
+        old(self).bed.lines().len(),
+//@open
+    proof { if self.bed.lines().len() > 0 && self.bed.lines()[0] is Ok { lemma_items_ignore_trailing_whitespace(self.bed.lines()[0]->Ok_0); } }
+//@end
+}
+
+impl BedFileStreamBedGraph {
+//@extract method bigtools/src/bed/bedparser.rs from_bedgraph_file "BedFileStream<Value, BufReader<R>>"
+//@sub /\(file: R\) -> BedFileStream<Value, BufReader<R>>/ => (file: VBufRead) -> BedFileStreamBedGraph min=1
+//@sub /BedFileStream \{/ => BedFileStreamBedGraph { min=1
+//@sub /BufReader::new\(/ => buf_reader_new( min=0
+//@sub /parse: (\w+),/ => parse: fnptr_\1(), min=1
+//@ret r
+//@sig
+    ensures
+        [[L: from_bedgraph_file/stream_starts_at_the_first_line_of_the_file]]
+        r.bed.lines() == file.lines(),
+//@end
+//@extract method bigtools/src/bed/bedparser.rs next "StreamingBedValues for BedFileStream"
+//@sub /fn next\(&mut self\) -> Option<Result<\(&str, Self::Value\), BedValueError>>/ => fn next(&mut self) -> Option<Result<(&Str, Value), BedValueError>> min=1
+//@sub /\(self\.parse\)\(/ => parse_bedgraph( min=0
+//@ret r
+//@sig
+    ensures
+        [[L: file_bg/none_iff_file_exhausted]]
+        r is None <==> old(self).bed.lines().len() == 0,
+        [[L: file_bg/exactly_one_line_consumed]]
+        old(self).bed.lines().len() > 0 ==> final(self).bed.lines() == old(self).bed.lines().drop_first(),
+        old(self).bed.lines().len() == 0 ==> final(self).bed.lines() == old(self).bed.lines(),
+        [[L: file_bg/item_is_the_parse_of_that_line_io_error_passed_on]]
+        r matches Some(it) ==> bg_item_view(it) == bg_read_item(old(self).bed.lines()[0]),
+    decreases
+        [[L: file_bg/termination]]
+        old(self).bed.lines().len(),
+//@open
+    proof { if self.bed.lines().len() > 0 && self.bed.lines()[0] is Ok { lemma_items_ignore_trailing_whitespace(self.bed.lines()[0]->Ok_0); } }
+//@end
+}
+
+// ---------------- composition with unit `feed` ----------------
+// `feed` (BedParserStreamingIterator::process_to_bbi) ASSUMES a source `VSource` whose `rest()` is "the item
+// sequence" and whose `next()` pops it.  The drivers below call `next` until `None` and collect what it returned
+// (names copied to owned texts): the collected sequence is, item by item and in order, the parse of the file's
+// lines -- so the `rest()` that `feed` talks about is `lines().map(bed_read_item)`; in particular it has exactly
+// one item per line.  Proved from the contract of `next` alone.
+pub open spec fn bed_owned_view(r: Result<(Str, BedEntry), BedValueError>) -> ItemView<EntryView> {
+    match r { Ok(v) => ItemView::Item(v.0@, entry_view(v.1)), Err(e) => err_view(e) }
+}
+pub open spec fn bg_owned_view(r: Result<(Str, Value), BedValueError>) -> ItemView<Value> {
+    match r { Ok(v) => ItemView::Item(v.0@, v.1), Err(e) => err_view(e) }
+}
+fn drain_bed(st: &mut BedFileStreamBed) -> (out: Vec<Result<(Str, BedEntry), BedValueError>>)
+    ensures
+        [[L: drain_bed/one_item_per_line]]
+        out@.len() == old(st).bed.lines().len(),
+        final(st).bed.lines().len() == 0,
+        [[L: drain_bed/items_are_the_parses_of_the_lines_in_order]]
+        forall|k: int| 0 <= k < out@.len() ==> bed_owned_view(#[trigger] out@[k]) == bed_read_item(old(st).bed.lines()[k]),
+{
+    let ghost all = st.bed.lines();
+    let mut out: Vec<Result<(Str, BedEntry), BedValueError>> = Vec::new();
+    loop
+        invariant
+            out@.len() <= all.len(), all == old(st).bed.lines(),
+            st.bed.lines() == all.subrange(out@.len() as int, all.len() as int),
+            forall|k: int| 0 <= k < out@.len() ==> bed_owned_view(#[trigger] out@[k]) == bed_read_item(all[k]),
+        ensures
+            out@.len() == all.len(), st.bed.lines().len() == 0,
+        decreases
+            [[L: drain_bed/termination]]
+            st.bed.lines().len(),
+    {
+        let ghost n = out@.len() as int;
+        proof {
+            if n < all.len() {
+                assert(all.subrange(n, all.len() as int)[0] == all[n]);
+                assert(all.subrange(n, all.len() as int).drop_first() =~= all.subrange(n + 1, all.len() as int));
+            }
+        }
+        match st.next() {
+            None => { break; }
+            Some(Ok(v)) => { let name = v.0.to_string(); out.push(Ok((name, v.1))); }
+            Some(Err(e)) => { out.push(Err(e)); }
+        }
+    }
+    out
+}
+fn drain_bedgraph(st: &mut BedFileStreamBedGraph) -> (out: Vec<Result<(Str, Value), BedValueError>>)
+    ensures
+        [[L: drain_bg/one_item_per_line]]
+        out@.len() == old(st).bed.lines().len(),
+        final(st).bed.lines().len() == 0,
+        [[L: drain_bg/items_are_the_parses_of_the_lines_in_order]]
+        forall|k: int| 0 <= k < out@.len() ==> bg_owned_view(#[trigger] out@[k]) == bg_read_item(old(st).bed.lines()[k]),
+{
+    let ghost all = st.bed.lines();
+    let mut out: Vec<Result<(Str, Value), BedValueError>> = Vec::new();
+    loop
+        invariant
+            out@.len() <= all.len(), all == old(st).bed.lines(),
+            st.bed.lines() == all.subrange(out@.len() as int, all.len() as int),
+            forall|k: int| 0 <= k < out@.len() ==> bg_owned_view(#[trigger] out@[k]) == bg_read_item(all[k]),
+        ensures
+            out@.len() == all.len(), st.bed.lines().len() == 0,
+        decreases
+            [[L: drain_bg/termination]]
+            st.bed.lines().len(),
+    {
+        let ghost n = out@.len() as int;
+        proof {
+            if n < all.len() {
+                assert(all.subrange(n, all.len() as int)[0] == all[n]);
+                assert(all.subrange(n, all.len() as int).drop_first() =~= all.subrange(n + 1, all.len() as int));
+            }
+        }
+        match st.next() {
+            None => { break; }
+            Some(Ok(v)) => { let name = v.0.to_string(); out.push(Ok((name, v.1))); }
+            Some(Err(e)) => { out.push(Err(e)); }
+        }
+    }
+    out
+}
+
+// ================= (3) BedIteratorStream::next / BedInfallibleIteratorStream::next =================
+/// `V: Clone` (Value, BedEntry, or the caller's type): an opaque payload; `Clone` is ASSUMED faithful
+pub struct Val { pub payload: u64 }
+impl Val {
+    pub fn clone(&self) -> (r: Val)
+        ensures r == *self,
+    { Val { payload: self.payload } }
+}
+/// `C: Into<String> + for<'a> PartialEq<&'a str>` (in practice `&str` / `String`): a text
+#[verifier::external_body]
+pub struct CName { _p: u8 }
+impl CName {
+    pub uninterp spec fn view(&self) -> Seq<char>;
+    /// `Into<String>`: ASSUMED to keep the characters
+    #[verifier::external_body]
+    pub fn into(self) -> (r: Str)
+        ensures r@ == self@,
+    { unimplemented!() }
+}
+/// `C == &str` (`PartialEq<&str> for C`): ASSUMED to be equality of the characters
+#[verifier::external_body]
+pub fn cname_eq(a: &CName, b: &Str) -> (r: bool)
+    ensures r == (a@ == b@),
+{ unimplemented!() }
+/// `E: Into<BedValueError>`: some deterministic conversion
+#[verifier::external_body]
+pub struct SrcErr { _p: u8 }
+impl SrcErr {
+    pub uninterp spec fn conv(self) -> BedValueError;
+    #[verifier::external_body]
+    pub fn into(self) -> (r: BedValueError)
+        ensures r == self.conv(),
+    { unimplemented!() }
+}
+/// `I: Iterator<Item = Result<(C, V), E>>`: the items not handed out yet; ASSUMED fused (stays exhausted)
+#[verifier::external_body]
+pub struct VIter { _p: u8 }
+impl VIter {
+    pub uninterp spec fn rest(&self) -> Seq<Result<(CName, Val), SrcErr>>;
+    #[verifier::external_body]
+    pub fn next(&mut self) -> (r: Option<Result<(CName, Val), SrcErr>>)
+        ensures
+            old(self).rest().len() == 0 ==> r is None && final(self).rest() == old(self).rest(),
+            old(self).rest().len() > 0 ==> r == Some(old(self).rest()[0]) && final(self).rest() == old(self).rest().drop_first(),
+    { unimplemented!() }
+}
+/// `I: Iterator<Item = (C, V)>`
+#[verifier::external_body]
+pub struct VIterI { _p: u8 }
+impl VIterI {
+    pub uninterp spec fn rest(&self) -> Seq<(CName, Val)>;
+    #[verifier::external_body]
+    pub fn next(&mut self) -> (r: Option<(CName, Val)>)
+        ensures
+            old(self).rest().len() == 0 ==> r is None && final(self).rest() == old(self).rest(),
+            old(self).rest().len() > 0 ==> r == Some(old(self).rest()[0]) && final(self).rest() == old(self).rest().drop_first(),
+    { unimplemented!() }
+}
+
+//@extract struct bigtools/src/bed/bedparser.rs BedIteratorStream
+//@rule R8
+//@sub /BedIteratorStream<V, I>/ => BedIteratorStream min=1
+//@sub /iter: I,/ => iter: VIter, min=1
+//@sub /\(String, V\)/ => (Str, Val) min=1
+//@end
+//@extract struct bigtools/src/bed/bedparser.rs BedInfallibleIteratorStream
+//@rule R8
+//@sub /BedInfallibleIteratorStream<V, I>/ => BedInfallibleIteratorStream min=1
+//@sub /iter: I,/ => iter: VIterI, min=1
+//@sub /\(String, V\)/ => (Str, Val) min=1
+//@end
+
+// R11 in both `next`s: the generic signature instantiated (`(&str, V)` -> `(&Str, Val)`); `v.0 == &c.0` ->
+// `cname_eq(&v.0, &c.0)`; the closing `self.curr.as_ref().map(|v| E)` -> `match self.curr.as_ref() { Some(v) =>
+// Some(E), None => None }` (definition of Option::map; E verbatim).
+impl BedIteratorStream {
+//@extract method bigtools/src/bed/bedparser.rs next "StreamingBedValues for BedIteratorStream"
+//@sub /\(&str, V\)/ => (&Str, Val) min=1
+//@sub /^\s*use std::ops::Deref;\n/ => "" min=0
+//@sub /(\w+(?:\.\w+)*) == &(\w+(?:\.\w+)*)/ => cname_eq(&\1, &\2) min=0
+//@sub /(self\.curr\.as_ref\(\))\.map\(\|v\| (.*?)\)(\s*\}\s*)\Z/ => match \1 { Some(v) => Some(\2), None => None }\3 min=1
+//@ret r
+//@sig
+    ensures
+        [[L: iter/none_iff_iterator_exhausted]]
+        r is None <==> old(self).iter.rest().len() == 0,
+        [[L: iter/exactly_one_item_consumed]]
+        old(self).iter.rest().len() > 0 ==> final(self).iter.rest() == old(self).iter.rest().drop_first(),
+        old(self).iter.rest().len() == 0 ==> final(self).iter.rest() == old(self).iter.rest(),
+        [[L: iter/ok_item_yields_its_own_chrom_text_and_value]]
+        old(self).iter.rest().len() > 0 ==> (old(self).iter.rest()[0] matches Ok(x) ==>
+            r is Some && r->Some_0 is Ok && r->Some_0->Ok_0.0@ == x.0@ && r->Some_0->Ok_0.1 == x.1),
+        [[L: iter/error_item_is_passed_on]]
+        old(self).iter.rest().len() > 0 ==> (old(self).iter.rest()[0] matches Err(e) ==>
+            r == Some(Err::<(&Str, Val), BedValueError>(e.conv()))),
+        [[L: iter/cache_holds_what_was_returned]]
+        r matches Some(Ok(y)) ==> final(self).curr is Some && final(self).curr->Some_0.0@ == y.0@ && final(self).curr->Some_0.1 == y.1,
+    decreases
+        [[L: iter/termination]]
+        old(self).iter.rest().len(),
+//@end
+}
+impl BedInfallibleIteratorStream {
+//@extract method bigtools/src/bed/bedparser.rs next "StreamingBedValues\s+for BedInfallibleIteratorStream"
+//@sub /\(&str, V\)/ => (&Str, Val) min=1
+//@sub /^\s*use std::ops::Deref;\n/ => "" min=0
+//@sub /(\w+(?:\.\w+)*) == &(\w+(?:\.\w+)*)/ => cname_eq(&\1, &\2) min=0
+//@sub /(self\.curr\.as_ref\(\))\.map\(\|v\| (.*?)\)(\s*\}\s*)\Z/ => match \1 { Some(v) => Some(\2), None => None }\3 min=1
+//@ret r
+//@sig
+    ensures
+        [[L: infallible/none_iff_iterator_exhausted]]
+        r is None <==> old(self).iter.rest().len() == 0,
+        [[L: infallible/exactly_one_item_consumed]]
+        old(self).iter.rest().len() > 0 ==> final(self).iter.rest() == old(self).iter.rest().drop_first(),
+        old(self).iter.rest().len() == 0 ==> final(self).iter.rest() == old(self).iter.rest(),
+        [[L: infallible/item_yields_its_own_chrom_text_and_value]]
+        old(self).iter.rest().len() > 0 ==>
+            r is Some && r->Some_0 is Ok && r->Some_0->Ok_0.0@ == old(self).iter.rest()[0].0@ && r->Some_0->Ok_0.1 == old(self).iter.rest()[0].1,
+        [[L: infallible/cache_holds_what_was_returned]]
+        r matches Some(Ok(y)) ==> final(self).curr is Some && final(self).curr->Some_0.0@ == y.0@ && final(self).curr->Some_0.1 == y.1,
+    decreases
+        [[L: infallible/termination]]
+        old(self).iter.rest().len(),
+//@end
+}
 
 } // verus!
 fn main() {}
